@@ -12,15 +12,17 @@ import signal
 import struct
 
 
-def _install(counter, kill_at, log):
+def _install(counter, kill_at, log, how='sigkill'):
 	import h5py
+	died = []
 
 	def wrap(cls, name, label):
 		orig = getattr(cls, name)
 
 		def wrapper(self, *a, **kw):
-			if kill_at is not None and counter[0] == kill_at:
-				os.kill(os.getpid(), signal.SIGKILL)
+			if kill_at is not None and counter[0] == kill_at and not died:
+				died.append(True)       # only once: clean-up code that runs after a catchable signal must not be interrupted again
+				_die(how)
 			counter[0] += 1
 			log.append(label)
 			return orig(self, *a, **kw)
@@ -33,7 +35,19 @@ def _install(counter, kill_at, log):
 	wrap(h5py.File, 'close', 'close')
 
 
-def run_writer(write_fn, kill_at):
+def _die(how):
+	"""End the process the way `how` says: SIGKILL (nothing runs), SIGTERM (default disposition unless the code under test
+	installed a handler), SIGINT (Python turns it into KeyboardInterrupt, so `with` blocks and finalisers DO run)."""
+	sig = {'sigkill': signal.SIGKILL, 'sigterm': signal.SIGTERM, 'sigint': signal.SIGINT}[how]
+	os.kill(os.getpid(), sig)
+	if how != 'sigkill':
+		# give the interpreter a chance to deliver the signal at a bytecode boundary
+		import time
+		for _ in range(50):
+			time.sleep(0.001)
+
+
+def run_writer(write_fn, kill_at, how='sigkill'):
 	"""Fork; in the child install the wrappers and call write_fn().
 
 	Returns ('killed', None) if the child died by SIGKILL, ('done', (count, labels)) if it ran to
@@ -47,9 +61,18 @@ def run_writer(write_fn, kill_at):
 			os.close(r)
 			counter = [0]
 			log = []
-			_install(counter, kill_at, log)
+			_install(counter, kill_at, log, how)
 			try:
 				write_fn()
+			except (KeyboardInterrupt, SystemExit) as e:
+				if kill_at is not None and how != 'sigkill':
+					# the writer was interrupted by the signal and unwound (context managers ran): the process now ends
+					msg = b'I' + repr(e).encode('utf-8', 'replace')[:200]
+					os.write(w, struct.pack('<I', len(msg)) + msg)
+					os._exit(4)
+				msg = ('E' + repr(e)).encode('utf-8', 'replace')[:4000]
+				os.write(w, struct.pack('<I', len(msg)) + msg)
+				os._exit(3)
 			except BaseException as e:  # noqa
 				msg = ('E' + repr(e)).encode('utf-8', 'replace')[:4000]
 				os.write(w, struct.pack('<I', len(msg)) + msg)
@@ -70,11 +93,13 @@ def run_writer(write_fn, kill_at):
 		data += chunk
 	os.close(r)
 	_, status = os.waitpid(pid, 0)
-	if os.WIFSIGNALED(status) and os.WTERMSIG(status) == signal.SIGKILL:
+	if os.WIFSIGNALED(status) and os.WTERMSIG(status) in (signal.SIGKILL, signal.SIGTERM, signal.SIGINT):
 		return 'killed', None
 	if len(data) >= 4:
 		n = struct.unpack('<I', data[:4])[0]
 		msg = data[4:4 + n].decode('utf-8', 'replace')
+		if msg.startswith('I'):
+			return 'killed', msg[1:]
 		if msg.startswith('C'):
 			cnt, _, labels = msg[1:].partition(':')
 			return 'done', (int(cnt), labels.split(',') if labels else [])
